@@ -32,10 +32,11 @@ def run(ctx):
     from vlib import skel
     for lang in capture.LANG_NAMES:
         have = dict(skel.programs(lang, "quick"))
-        for label in ("one-arrow", "one-throws", "two", "one-asyncarrow"):
+        have.update(skel.extra_programs(lang))
+        for label in ("one-arrow", "one-throws", "two", "one-asyncarrow", "x-arrow-default-arrow", "x-fn-default-arrow"):
             if label not in have or (ctx.quick() and label == "two" and lang not in ("Python", "Java")):
                 continue
-            for op in ("delete", "dup", "replace", "swap"):
+            for op in ("none", "delete", "dup", "replace", "swap"):
                 jobs.append(Job("mut.py", "h_mut", {"lang": lang, "label": label, "op": op, "order": True}, T, 60, tag=f"seed-order {lang}/{label}/{op}", meta={"sigtag": f"hash-seed:{lang}", "twin": False}))
     ctx.bounds["hash seed at scan_file level"] = "every single-edit mutant of arrow / throws / plain programs: outcome under identity vs reversed vs rotated transition order of every DFA state"
     for n in ((2,) if ctx.quick() else (2, 3)):
